@@ -32,12 +32,21 @@ def run(ctx):
     ctx.rule("C01.R4", "K10", "no primitive more lenient than the RFC grammar on wire-derived data")
     ctx.rule("C01.R5", "K7", "character tables equal RFC 9110/9112 tables")
     ctx.rule("C01.R6", "K1+K7", "relaxations are reachable only through their documented-unsafe switch, whose default is safe")
+    ctx.rule("C01.R7", "K11", "(= C06.R1-R3) a request ends at the right stream offset: whole-accumulator searches, exact residues, every split pair conserved and pushed back")
+    ctx.rule("C01.R8", "K3", "(= C07.R1) the unread body of the previous request is drained before the next request line is parsed")
     r1(ctx)
     r2(ctx)
     r3(ctx)
     r4(ctx)
     r5(ctx)
     r6(ctx)
+    # the end offset of a request: buffer discipline of the framing layer (C06.R1-R3) and drain-before-next (C07.R1)
+    from . import c06, c07
+    from .common import MultiAlias
+    a = MultiAlias(ctx, {"C06.R1": "C01.R7", "C06.R2": "C01.R7", "C06.R3": "C01.R7", "C07.R1": "C01.R8"})
+    c06.r1(a)
+    c06.r23(a)
+    c07.r1(a)
 
 
 # ------------------------------------------------------------------------------- R1
